@@ -157,6 +157,9 @@ def _gen_cases(tier, seed):
                         yield C(w="innerprod", shape=list(shp), ka=ka, kb=kb, fill=fill, fillB=FILLS[int(rng.integers(0, 5))])
             for ka in kinds[:4]:
                 yield C(w="norm", shape=list(shp), ka=ka, fill=FILLS[int(rng.integers(0, 5))])
+            if N >= 2:
+                for _ in range(9):
+                    yield C(w="innerprod", shape=list(shp), ka="tensor", kb="tensor", fill="all", fillB="all")
     # contract / collapse / scale / mask
     for N in range(2, 5):
         for shp0 in pool[N]:
@@ -423,15 +426,21 @@ def _w_ttsv(case, ctx, rng, shape, N):
         _compare(ctx, "tensor.ttsv", got, want, "tensor")
 
 
-def _holder_of(kindname, rng, shape, fill):
+def _holder_of(kindname, rng, shape, fill, hist=None):
     base = {"tensor": "dense", "sptensor": "dense", "ktensor": "kruskal", "ttensor": "tucker", "sumtensor": "sum"}[kindname]
-    A, H = _ground({}, rng, shape, base=base, fill=fill)
+    A, H = _ground({"hist": hist}, rng, shape, base=base, fill=fill)
     return A, H[kindname]
 
 
 def _w_innerprod(case, ctx, rng, shape, N):
-    A, X = _holder_of(case["ka"], rng, shape, case["fill"])
-    B, Y = _holder_of(case["kb"], rng, shape, case["fillB"])
+    # operand histories: both constructed, exactly one of them grown by assignment, both grown
+    grown = case.get("hist") == "grown"
+    sel = (case["cseed"] // 3) % 3
+    ha = "grown" if grown and sel != 0 else None
+    hb = "grown" if grown and sel != 1 else None
+    ctx.feat(hist_pair=f"{ha or 'ctor'}/{hb or 'ctor'}")
+    A, X = _holder_of(case["ka"], rng, shape, case["fill"], ha)
+    B, Y = _holder_of(case["kb"], rng, shape, case["fillB"], hb)
     ctx.feat(ka=case["ka"], kb=case["kb"], nnzA=_nnzc(A) if case["ka"] == "sptensor" else "-", nnzB=_nnzc(B) if case["kb"] == "sptensor" else "-")
     want = float(np.sum(A * B))
     scale = float(np.sum(np.abs(A * B))) + 1e-300
@@ -505,9 +514,10 @@ def _w_scale(case, ctx, rng, shape, N):
     want = np.einsum(refops.LETTERS[:N] + "," + "".join(refops.LETTERS[d] for d in dims) + "->" + refops.LETTERS[:N], A, F)
     for name in ("tensor", "sptensor"):
         if fk == "ndarray":
-            if len(dims) != 1:
+            if len(dims) != 1 and name != "tensor":
                 continue
-            farg = F.copy()
+            # a plain array factor over several modes, in either memory layout (the layout is not part of the meaning)
+            farg = F.copy() if case["cseed"] % 2 else np.asfortranarray(F)
         elif fk == "tensor":
             farg = ttb.tensor(F.copy())
         else:
